@@ -113,7 +113,9 @@ func (s *vfSession) forgeStep(x *vfSide) { //nolint:cyclop,maintidx
 			}
 		}
 	}
-	if f.Src == "known" && len(knownAddrs) > 0 {
+	if f.Src == "unknown" && x.otherTransportAddr.IsValid() && dst.Addr().Is4() && rng.IntN(3) == 0 {
+		f.Src, src = "known-on-other-transport", x.otherTransportAddr // known to the agent only as a remote TCP candidate
+	} else if f.Src == "known" && len(knownAddrs) > 0 {
 		src = knownAddrs[rng.IntN(len(knownAddrs))]
 	} else {
 		f.Src = "unknown"
@@ -426,6 +428,13 @@ func vfC02Run(e *vfEnv, r *vfResult, idx int) {
 					pending = append(pending, vfPendingSignal{to: x, cand: bc, desc: fmt.Sprintf("%s told extra same-IP candidate %s", x.name, vfCandAddr(bc))})
 				}
 			}
+		}
+	}
+	for i, x := range s.sides() {
+		ap := netip.MustParseAddrPort(fmt.Sprintf("10.%d.200.1:9000", 50+i))
+		if tc, err := NewCandidateHost(&CandidateHostConfig{Network: "tcp", Address: ap.Addr().String(), Port: int(ap.Port()), Component: 1, TCPType: TCPTypePassive}); err == nil {
+			x.otherTransportAddr = ap
+			pending = append(pending, vfPendingSignal{to: x, cand: tc, desc: fmt.Sprintf("%s told TCP passive candidate %s", x.name, ap)})
 		}
 	}
 	budget := map[*vfSide]int{s.A: 40, s.B: 40}
